@@ -726,28 +726,37 @@ let predict_ovl (f : string list) (obs : string) : string * string * bool =
       let d i = if has_def then ["D" ^ string_of_int i] else [] in
       let e i = dec_cfg (dflt i) sec in
       let idx = List.init kk (fun i -> i) in
-      (* the model's prediction: the registry's rounds (C18_new_config / C18_plugin_factory_config /
-         C18_factory_factory_config) with the decoder of Model/RegistryOverlay.v as the fill *)
-      let pred =
-        if req = "N" then
-          "new" ^ String.concat "" (List.map (fun i ->
-            " | " ^ (match e i with
-                     | Some c -> s_oround (d i @ ["C" ^ string_of_int i ^ ":" ^ s_cfg c] @ (if ret = "F" then ["P" ^ string_of_int i] else []), "ok:" ^ s_cfg c)
-                     | None -> s_oround (d i, "err"))) idx)
-        else if ret = "P" then
-          (match e 0 with
-           | None -> "fac " ^ s_oround (d 0, "err")
-           | Some _ ->
-               "fac " ^ s_oround (d 0, "ok") ^ String.concat "" (List.map (fun i ->
-                 " | " ^ (match e (i + 1) with
-                          | Some c -> s_oround (d (i + 1) @ ["C" ^ string_of_int i ^ ":" ^ s_cfg c], "ok:" ^ s_cfg c)
-                          | None -> s_oround (d (i + 1), if req = "F0" then "panic" else "err"))) idx))
-        else
-          (match e 0 with
-           | None -> "fac " ^ s_oround (d 0, "err")
-           | Some c ->
-               "fac " ^ s_oround (d 0 @ ["C0:" ^ s_cfg c], "ok") ^ String.concat "" (List.map (fun i ->
-                 " | " ^ s_oround (["P" ^ string_of_int i], "ok:" ^ s_cfg c)) idx)) in
+      (* the model's prediction: the registry model (run_case, proved: C18_spec) run with a fill that
+         keeps only WHICH default invocation a config was made from and fails exactly when the settings
+         are not acceptable; the content of a config made from default invocation n is then the decoder
+         of Model/RegistryOverlay.v applied to that default: dec_cfg (dflt n) sec *)
+      let _ = d in
+      let sh = { sh_ret = (if ret = "P" then RPlugin else RFactory);
+                 sh_cfg = (if _cfg = "P" then CPtr else CStruct);
+                 sh_cerr = false; sh_perr = false;
+                 sh_def = (if has_def then DefVal else DefNone); sh_rt = TIface; sh_named = false } in
+      let o = { o_dflt = (fun n -> { va = n_of_int (int_of_nat n); vb = N0; vc = N0 }); o_fill = (fun _ v -> v);
+                o_ffail = (fun _ -> (match e 0 with None -> true | Some _ -> false));
+                o_cfail = (fun _ -> false); o_pfail = (fun _ -> false) } in
+      let cs = { cs_shape = sh; cs_req = (if req = "N" then ReqNew else ReqFactory (req = "F1", false)); cs_hf = true; cs_k = nat_of_int kk } in
+      let content = function
+        | AVal v -> (match e (int_of_n v.va) with Some c -> s_cfg c | None -> "undecodable")
+        | AConf cf -> (match e (int_of_n cf.c_val.va) with Some c -> s_cfg c | None -> "undecodable")
+        | ANone -> "-" | ANil -> "nil" in
+      let m_evs evs = List.filter_map (function
+        | EvDefault n -> Some ("D" ^ s_nat n)
+        | EvFill _ -> None
+        | EvCtor (i, a) -> Some ("C" ^ s_nat i ^ ":" ^ content a)
+        | EvProd (m, _) -> Some ("P" ^ s_nat m)) evs in
+      let m_out = function OOk p -> "ok:" ^ content p.p_arg | OErr _ -> "err" | OPanic _ -> "panic" in
+      let m_op (evs, out) = s_oround (m_evs evs, m_out out) in
+      let _ = idx in
+      let pred = (match run_case cs o with
+                  | ObsNew ops -> "new" ^ String.concat "" (List.map (fun op -> " | " ^ m_op op) ops)
+                  | ObsFactory (cev, ce, ops) ->
+                      "fac " ^ s_oround (m_evs cev, (match ce with None -> "ok" | Some _ -> "err")) ^
+                      String.concat "" (List.map (fun op -> " | " ^ m_op op) ops)
+                  | ObsRegPanic -> "regpanic") in
       (* the verdict: the specification on the implementation's observation *)
       let defs evs = List.filter_map (function ODef n -> Some n | _ -> None) evs in
       let ctors evs = List.filter_map (function OCtor (i, c) -> Some (i, c) | _ -> None) evs in
